@@ -41,7 +41,7 @@ CHECKS = {
     'C12': dict(text="Bounded model checking by CBMC on the compiled crate (dev profile: overflow checks and debug assertions on): for all 22 indicators and periods n<=3 (8), schedule "
                      "[k x next, reset] for k=0..2, then 3n+3 x next, clone, next on both, with EVERY input an arbitrary f64 bit pattern (NaN, +-inf, subnormals, -0.0; bar fields independent): "
                      "no Rust panic, no out-of-bounds, no overflow. ChandelierExit/SlowStochastic with EMA::next stubbed (its own harness decides it) and shorter schedules in the quick tier. "
-                     "Counterexamples are decoded from concrete playback and replayed natively. Plus R: one inductive step on the cursor invariant from every invariant cursor state with symbolic buffers for the nine ring indicators, n<=5 (12): all history lengths (not required for the verdict).",
+                     "Counterexamples are decoded from concrete playback and replayed natively. Plus R: one inductive step on the cursor invariant from every invariant cursor state with symbolic buffers for the nine ring indicators, n<=5 (12): all history lengths (not required for the verdict). For SMA, WMA, SD, ROC, MFI the same step is taken with the PERIOD SYMBOLIC over 1..2^60 (abstract ring buffer, integer widths from the MIR): every period, every history length; feasible failures are confirmed natively.",
                 technique="Kani/CBMC proof harnesses over kani::any() inputs, unwinding assertions on, native replay of counterexamples", design='4/C12', engine='kani',
                 note="Trusted base: Kani 0.68 / CBMC 6.11; stubs listed per family in the evidence (f64::sqrt -> arbitrary value for SD/BB; EMA::next -> arbitrary value inside CE/SlowStochastic)."),
     'C06': dict(text="Bounded model checking by CBMC of the serde-derived Serialize/Deserialize impls of /repo, driven through a minimal non-self-describing token format (bincode's shape "
